@@ -81,11 +81,11 @@ def sqlite_three_valued(db, q, nrows):
 
 
 # known classes of failing inputs (keys of proposed known findings); everything else is keyed by its own minimal expression
-def classify(e, form, string_form_ok):
+def classify(e, form, decompiler_changed_meaning):
     """canonical key of a minimal failing expression (None: no known class)"""
     def has(pred): return any(pred(s) for s in Q.subexprs(e))
-    if form in ('generator', 'lambda') and string_form_ok:
-        # the string form of the same query is right: the decompiler changed the meaning (C03's territory, reaches C01 too)
+    if form in ('generator', 'lambda') and decompiler_changed_meaning:
+        # the expression the decompiler hands to the translator reads differently from the source (C03's territory, reaches C01 too)
         if has(lambda s: s[0] == 'ite'): return 'decompiler-conditional-expression-in-boolean-context'
         if has(lambda s: s[0] == 'cmp' and any(x[0] in ('and', 'or') for x in s[2:4])): return 'decompiler-and-or-used-as-value'
         return None
@@ -229,10 +229,13 @@ def report_violation(ctx, db, E, rows, e, params, form, got, expected):
     try: g = rows_of(E, small, params, form)
     except Exception as ex: g = 'raised ' + type(ex).__name__
     exp = exp_of(small)
-    string_ok = None
-    if form != 'string':
-        try: string_ok = rows_of(E, small, params, 'string') == exp
-        except Exception: string_ok = False
+    string_ok = False
+    if form in ('generator', 'lambda'):
+        try:
+            tex = Forms(E, Q.src(small), params).decompiled(form)
+            string_ok = any(Q.as_k(Q.py_eval(tex, r, params)) != Q.as_k(Q.py_eval(small, r, params)) for r in rows)
+        except Exception:
+            string_ok = False
     wrong = sorted(set(g) ^ set(exp)) if isinstance(g, list) else []
     witness = rows[wrong[0] - 1] if wrong else None
     used = sorted({s[1] for s in Q.subexprs(small) if s[0] == 'attr'})
@@ -249,7 +252,43 @@ QUERY_TEXT = {'generator': 'select(e for e in E if %s)', 'lambda': 'E.select(lam
               'filter': "E.select().filter('lambda e: %s')"}
 
 
+# the witnesses of the `…_full_false` theorems and of every class of failing input found so far, replayed on the real code on every run
+WITNESSES = [
+    # (key, form, expression, rows)
+    ('not-over-and-or-with-nullable-truth-test', 'string', ('not', ('and', ('attr', 'n'), ('attr', 'a'))), [{'n': None, 'a': 1}]),
+    ('not-over-and-or-with-nullable-truth-test', 'lambda', ('not', ('or', ('attr', 'n'), ('attr', 'b'))), [{'n': None, 'b': False}]),
+    ('not-in-nullable-string-selects-null', 'string', ('like', 'contains', True, 'x', ('attr', 'ns')), [{'ns': None}]),
+    ('comparison-operand-is-a-condition-unparenthesized', 'string', ('cmp', '==', ('attr', 'b'), ('cmp', '==', ('attr', 'a'), ('int', 1))), [{'a': 2, 'b': False}]),
+    ('int-compared-with-str-affinity', 'string', ('cmp', '==', ('attr', 'a'), ('attr', 's')), [{'a': 1, 's': '1'}]),
+    ('filter-lambda-value-not-truth-tested', 'filter', ('attr', 's'), [{'s': 'q'}]),
+    ('decompiler-conditional-expression-in-boolean-context', 'generator', ('or', ('attr', 'b'), ('ite', ('attr', 'nb'), ('attr', 'nb'), ('attr', 'nb'))), [{'b': True, 'nb': None}]),
+]
+BASE_ROW = {'a': 0, 'c': 0, 'n': 0, 'm': 0, 'b': False, 'nb': False, 's': 'a', 't': '', 'ns': ''}
+
+
+def run_witnesses(ctx):
+    for key, form, e, rws in WITNESSES:
+        db, E = fresh_db()
+        rows = [dict(BASE_ROW, **r) for r in rws]
+        load_rows(db, E, rows)
+        params = {'pi': 0, 'pj': 0, 'pb': False, 'ps': ''}
+        exp = [i + 1 for i, r in enumerate(rows) if Q.as_k(Q.py_eval(e, r, params)) == Q.TT]
+        ctx.case(['witness', key, form, Q.src(e)], kind='witness')
+        try:
+            got = rows_of(E, e, params, form)
+        except Exception as ex:
+            ctx.count('witness-now-raises:' + key); db.disconnect(); continue
+        if got != exp:
+            ctx.violation('rows returned differ from Python evaluation of the same expression (%s form)' % form,
+                          {'query': QUERY_TEXT[form] % Q.src(e), 'form': form, 'witness_row': rws[0]},
+                          observed={'ids': got}, expected={'ids': exp}, key=key)
+        else:
+            ctx.count('witness-no-longer-fails:' + key)
+        db.disconnect()
+
+
 def run(ctx):
+    run_witnesses(ctx)
     run_fragment(ctx, 'frag', ctx.scale(300, 3000), 4)
     run_fragment(ctx, 'ext', ctx.scale(200, 2000), 4)
 
